@@ -3,7 +3,7 @@ from props import sched_common as sc, sched_oracles as so
 
 PID = 'C04'
 META = {
-    'text': 'C04_progress: in every history from boot, a pending target unit whose upstream algorithms are idle for its target and for the all-targets marker is released by the next dispatch (leaves todo, enters doing, a task message is queued or handed out) -- proved from the invariants of C01. All-targets units: partial (released when no upstream node is queued) + refuted witness (a stale queue entry blocks the analysis for ever). Idle => empty queue and empty waiter views: proved for histories without failed/invalid replies and without empty-target requests (C04_idle_empty_partial); refuted in general with two witnesses (open known findings stale-queue-entry, causes purge and empty-target-list). Quiescence is argued from these lemmas, not machine-checked. Model tied to the code by step correspondence; the oracle checks idle=>empty, progress and that no released unit is lost on the implementation at every step; histories with a database that refuses a run id during a dispatch are searched with the oracle only (that fault is not an event of the model).',
+    'text': 'C04_progress: in every history from boot, a pending target unit whose upstream algorithms are idle for its target and for the all-targets marker is released by the next dispatch (leaves todo, enters doing, a task message is queued or handed out) -- proved from the invariants of C01. All-targets units: partial (released when no upstream node is queued) + refuted witness (a stale queue entry blocks the analysis for ever). Idle => empty queue and empty waiter views: proved for histories without failed/invalid replies and without empty-target requests (C04_idle_empty_partial); refuted in general with two witnesses (open known findings stale-queue-entry, causes purge and empty-target-list). Quiescence is argued from these lemmas, not machine-checked. Model tied to the code by step correspondence; the oracle checks idle=>empty, progress and that no released unit is lost on the implementation at every step; a database that refuses a run id during a dispatch is modelled (Model/SchedFault.v, TickFault k): such a dispatch loses no job (C04_fault_keeps_jobs) and the next ordinary dispatch turns every kept job into messages (C04_dispatch_empties_jobs); fault histories are tied by correspondence and searched by the oracle; the invariant theorems cover fault-free histories (C04_fault_free_is_sched).',
     'note': 'Trusted: Coq kernel; Sched.v + drive_sched.py correspondence (view_todo/view_doing/crew read from the real functions). Partial: the liveness clause (quiescence, waiters eventually satisfied) is not a theorem; all-targets progress needs the no-stale-entry hypothesis. Open known findings C04/stale-queue-entry (purge; empty-target-list).',
     'technique': 'Coq proof (invariants + induction over histories; refutation witnesses by vm_compute) over hand-written executable model + model/implementation correspondence + implementation-side oracle',
 }
@@ -28,7 +28,7 @@ def run(ctx):
     sc.sched_check(
         ctx, so.c04, ['sched', 'mixed'], nontrivial,
         witnesses=['stale-queue-entry'],
-        rule='(plus oracle-only histories in which db.next() fails during a dispatch) random engines (including analyses downstream of tasks) x random histories with failures, invalid replies and empty target lists; corpus of directed scenarios first. Non-trivial = the history reached an idle state (nothing pending, nothing executing) after >= 1 failed/invalid reply or empty-target request')
+        rule='(plus fault histories in which the k-th db.next() of a dispatch fails: correspondence with SchedFault.v + oracle) random engines (including analyses downstream of tasks) x random histories with failures, invalid replies and empty target lists; corpus of directed scenarios first. Non-trivial = the history reached an idle state (nothing pending, nothing executing) after >= 1 failed/invalid reply or empty-target request')
 
 
     if not ctx.replay:
